@@ -15,7 +15,7 @@ ID = "C02"
 LEVEL = "exploration"
 RULE = ("Hypothesis-generated table / multi-section recipes (1-6 columns, 0-40 rows, str/int/float with nulls, "
         "leading/trailing blanks, dictionary words, wrapping cells; nrow 1-50; plain / page_by (new_page T/F, "
-        "pageby_row column/first_row, nested, dividers) / subline_by / subline_by+page_by; all header modes, "
+        "pageby_row column/first_row, nested, dividers, 30 % with a value returning non-adjacently: S1 S1 S2 S1) / subline_by / subline_by+page_by; all header modes, "
         "footnote/source variants; text_convert on with trigger-free alphabet, off with ^ _ >= <=, or per original column with the trigger characters in the verbatim columns only) plus an "
         "exhaustive sweep rows 0..24 x nrow 1..12 x 6 strategies, and a sweep over every placement of two consumed columns among five x every per-column text_convert vector. Oracle: parsed data rows of all pages "
         "concatenated == DataFrame rows (display text, null->'') restricted to displayed columns, both "
@@ -27,7 +27,7 @@ ASSUMPTIONS = [
 ]
 
 CFG_ON = gen.Cfg(max_cols=6, max_rows=40, nrow_range=(1, 50), allow_group_by=False, half_points=False,
-                 as_colheader_false=False, long_text=0.2, subline_return=0.3)
+                 as_colheader_false=False, long_text=0.2, subline_return=0.3, page_by_return=0.3)
 CFG_OFF = replace(CFG_ON, alphabet=gen.ALPHA_CONVERT_OFF, convert_off_body=True)
 CFG_SMALL = replace(CFG_ON, max_rows=14, nrow_range=(1, 9))
 # text_convert per original column: verbatim columns carry ^ _ >= <=, converting columns (and the group keys) do not
